@@ -367,6 +367,48 @@ type WNoFields struct {
 	BQ     string `bq:"-"`
 }
 
+// WChain0..9: ten record types chained through slices of pointers (the schema the encoder writes for them nests
+// several JSON levels per record level; whatever bound the reader puts on nesting is far above this)
+type WChain9 struct {
+	V int64 `json:"v"`
+}
+type WChain8 struct {
+	N []*WChain9 `json:"n"`
+	V int64      `json:"v"`
+}
+type WChain7 struct {
+	N []*WChain8 `json:"n"`
+	V int64      `json:"v"`
+}
+type WChain6 struct {
+	N []*WChain7 `json:"n"`
+	V int64      `json:"v"`
+}
+type WChain5 struct {
+	N []*WChain6 `json:"n"`
+	V int64      `json:"v"`
+}
+type WChain4 struct {
+	N []*WChain5 `json:"n"`
+	V int64      `json:"v"`
+}
+type WChain3 struct {
+	N []*WChain4 `json:"n"`
+	V int64      `json:"v"`
+}
+type WChain2 struct {
+	N []*WChain3 `json:"n"`
+	V int64      `json:"v"`
+}
+type WChain1 struct {
+	N []*WChain2 `json:"n"`
+	V int64      `json:"v"`
+}
+type WChain0 struct {
+	N []*WChain1 `json:"n"`
+	V int64      `json:"v"`
+}
+
 // WFixedWidth: every field has a constant encoded width
 type WFixedInner struct {
 	X float64 `json:"x"`
@@ -490,6 +532,21 @@ func witnessCases() []witness {
 			z := int64(0)
 			return vals(WOmitColl{L: []null.Int{null.IntFrom(0), null.IntFrom(5), {}}, M: map[string]null.String{"a": null.StringFrom(""), "b": null.StringFrom("x"), "c": {}}, LP: []*int64{&z, nil, &z}, LS: []string{"", "x", ""}, Q: 1},
 				WOmitColl{Q: 2}, WOmitColl{L: []null.Int{null.IntFrom(0)}, LS: []string{""}, Q: 3})(c)
+		}},
+		{staticOf[WChain0]("ten-record-types-chained"), func(c *driverCtx) []reflect.Value {
+			mk := func(k int64) WChain0 {
+				l9 := &WChain9{k}
+				l8 := &WChain8{[]*WChain9{l9, l9}, k + 1}
+				l7 := &WChain7{[]*WChain8{l8}, k + 2}
+				l6 := &WChain6{[]*WChain7{l7, nil}, k + 3}
+				l5 := &WChain5{[]*WChain6{l6}, k + 4}
+				l4 := &WChain4{[]*WChain5{l5}, k + 5}
+				l3 := &WChain3{[]*WChain4{l4}, k + 6}
+				l2 := &WChain2{[]*WChain3{l3}, k + 7}
+				l1 := &WChain1{[]*WChain2{l2}, k + 8}
+				return WChain0{[]*WChain1{l1}, k + 9}
+			}
+			return vals(mk(1), WChain0{}, mk(100))(c)
 		}},
 		{staticOf[WShareStr]("strings-shared-across-records"), func(c *driverCtx) []reflect.Value {
 			x, y, z := "a long string that several records share with each other", strings.Repeat("y", 45), strings.Repeat("z", 33)
